@@ -26,6 +26,8 @@ HARNESSES = [
         'os.Create': G + '.stubCreate', 'os.WriteFile': G + '.stubWriteFile', 'os.MkdirAll': G + '.stubMkdirAll',
         G + '.isIDValid': G + '.stubIsIDValid', '(*text/template.Template).Execute': G + '.stubExecute',
     }, ['text/template', 'embed', 'regexp'], 'Generate/prepare/renderTemplate with os.Stat/Mkdir/OpenFile, isIDValid and template.Execute as nondeterministic stubs; 3 -out values x 3 names'),
+    ('names', GEN_REL, G, 'golang', 'harnessC16Names', {'(*regexp.Regexp).MatchString': G + '.stubMatchIdent'},
+     ['text/template', 'embed', 'regexp'], 'isIDValid on the 25 keywords and 44 predeclared identifiers of the Go specification, 18 usable and 9 malformed names (the regular expression replaced by its ASCII meaning): accepted iff usable'),
     ('run', CMD_REL, C, 'command', 'harnessC16Run', {
         'os.Open': C + '.stubOpen', '(*os.File).Close': C + '.stubClose', C + '.getPlant': C + '.stubRune', C + '.getAnimal': C + '.stubRune', C + '.getFruit': C + '.stubRune',
     }, [], 'Command.Run with os.Open, Parse and Generate as nondeterministic stubs; 4 argument lists x -out x -name x -debug'),
@@ -66,7 +68,7 @@ def run(tier, rep):
         run_part(rep, sc, tier)
         rep.assumptions += [
             'the operating system is a model: os.Stat/Mkdir/OpenFile/Open/Exit/Getwd, isIDValid (a regexp and a word list), template.Execute, flag parsing, spec.Parse and golang.Generate (in the Run and main harnesses) return arbitrary results within their documented contracts',
-            'NOT decided: what a real file system does (symlinks, partial writes, permissions), completeness of file contents, isIDValid against the Go specification',
+            'NOT decided: what a real file system does (symlinks, partial writes, permissions), completeness of file contents; isIDValid is decided on the reserved words of the Go specification and a few usable/malformed names with its regular expression replaced by the ASCII meaning of the identifier shape',
             'any call of os.Remove/RemoveAll/Rename/Truncate/Create/WriteFile/MkdirAll, or OpenFile without O_CREATE|O_EXCL or with O_TRUNC/O_APPEND, counts as touching pre-existing state',
             'counterexamples of these harnesses are not replayed natively (the stubs are engine-side); the main-level ones can be replayed with the real binary',
         ]
